@@ -137,54 +137,63 @@ Definition prep_upd (prep : list N) (e : ev) : list N :=
     as pending main-queue work while its target is not in Prep. *)
 
 Record s06 := mk06 {
-  q_main : list N;           (* plain closures in the main queue, in order *)
+  q_main : list N;           (* plain closures in the main queue of the current Stakker, in order *)
+  q_limbo : list N;          (* ... left queued by previous Stakker instances *)
   q_lazy : list N;
   q_idle : list N;
   q_run : option bool;       (* inside run(_, idle) *)
   q_first : bool;            (* nothing has started yet in this run *)
-  q_lazyon : bool }.         (* a lazy batch is in progress: main work submitted by it may be pending *)
+  q_lazyon : bool;           (* a lazy batch is in progress: main work submitted by it may be pending *)
+  q_tear : bool }.           (* inside Stakker::drop *)
 
-Definition i06 : s06 := mk06 [] [] [] None false false.
+Definition i06 : s06 := mk06 [] [] [] [] None false false false.
 
 Definition pop_if (u : N) (l : list N) : option (list N) :=
   match l with v :: r => if N.eqb u v then Some r else None | [] => None end.
 
 Definition step06 (s : s06) (e : ev) : option s06 :=
   match e with
-  | ESub QMain u false => Some (mk06 (q_main s ++ [u]) (q_lazy s) (q_idle s) (q_run s) (q_first s) (q_lazyon s))
-  | ESub QLazy u _ => Some (mk06 (q_main s) (q_lazy s ++ [u]) (q_idle s) (q_run s) (q_first s) (q_lazyon s))
-  | ESub QIdle u _ => Some (mk06 (q_main s) (q_lazy s) (q_idle s ++ [u]) (q_run s) (q_first s) (q_lazyon s))
-  | ERunBegin _ idle => Some (mk06 (q_main s) (q_lazy s) (q_idle s) (Some idle) true false)
+  | ENew _ => Some (mk06 [] (q_limbo s ++ q_main s) (q_lazy s) (q_idle s) None false false false)
+  | EDropBegin => Some (mk06 (q_main s) (q_limbo s) (q_lazy s) (q_idle s) (q_run s) (q_first s) (q_lazyon s) true)
+  | EDropEnd => Some (mk06 (q_main s) (q_limbo s) (q_lazy s) (q_idle s) (q_run s) (q_first s) (q_lazyon s) false)
+  | ESub QMain u false => Some (mk06 (q_main s ++ [u]) (q_limbo s) (q_lazy s) (q_idle s) (q_run s) (q_first s) (q_lazyon s) (q_tear s))
+  | ESub QLazy u _ => Some (mk06 (q_main s) (q_limbo s) (q_lazy s ++ [u]) (q_idle s) (q_run s) (q_first s) (q_lazyon s) (q_tear s))
+  | ESub QIdle u _ => Some (mk06 (q_main s) (q_limbo s) (q_lazy s) (q_idle s ++ [u]) (q_run s) (q_first s) (q_lazyon s) (q_tear s))
+  | ERunBegin _ idle => Some (mk06 (q_main s) (q_limbo s) (q_lazy s) (q_idle s) (Some idle) true false (q_tear s))
   | ERunRet b =>
       guard (nil_b (q_main s) && nil_b (q_lazy s) && Bool.eqb b (negb (nil_b (q_idle s))))
-            (mk06 (q_main s) (q_lazy s) (q_idle s) None false false)
+            (mk06 (q_main s) (q_limbo s) (q_lazy s) (q_idle s) None false false (q_tear s))
   | ERun u _ QIdle =>
       (* only on request, at most one, before anything else, in submission order *)
       match pop_if u (q_idle s) with
       | Some r => guard (match q_run s with Some true => true | _ => false end && q_first s)
-                        (mk06 (q_main s) (q_lazy s) r (q_run s) false (q_lazyon s))
+                        (mk06 (q_main s) (q_limbo s) (q_lazy s) r (q_run s) false (q_lazyon s) (q_tear s))
       | None => None
       end
   | ERun u _ QLazy =>
       (* in submission order; never while main-queue work is pending, unless a lazy item of this batch made it *)
       match pop_if u (q_lazy s) with
       | Some r => guard (q_lazyon s || nil_b (q_main s))
-                        (mk06 (q_main s) r (q_idle s) (q_run s) false true)
+                        (mk06 (q_main s) (q_limbo s) r (q_idle s) (q_run s) false true (q_tear s))
       | None => None
       end
   | ERun u _ QMain =>
       match pop_if u (q_main s) with
-      | Some r => Some (mk06 r (q_lazy s) (q_idle s) (q_run s) false false)
+      | Some r => Some (mk06 r (q_limbo s) (q_lazy s) (q_idle s) (q_run s) false false (q_tear s))
       | None => None
       end
   | ERun _ _ QTimer | EMeth _ _ _ | EPrep _ _ _ =>
-      Some (mk06 (q_main s) (q_lazy s) (q_idle s) (q_run s) false false)
+      Some (mk06 (q_main s) (q_limbo s) (q_lazy s) (q_idle s) (q_run s) false false (q_tear s))
   | EDrop u (Some QMain) false =>
-      match pop_if u (q_main s) with Some r => Some (mk06 r (q_lazy s) (q_idle s) (q_run s) (q_first s) (q_lazyon s)) | None => None end
+      (* Stakker::drop drops what its own queue holds; a new Stakker drops what earlier instances left *)
+      if q_tear s then
+        match pop_if u (q_main s) with Some r => Some (mk06 r (q_limbo s) (q_lazy s) (q_idle s) (q_run s) (q_first s) (q_lazyon s) (q_tear s)) | None => None end
+      else
+        match pop_if u (q_limbo s) with Some r => Some (mk06 (q_main s) r (q_lazy s) (q_idle s) (q_run s) (q_first s) (q_lazyon s) (q_tear s)) | None => None end
   | EDrop u (Some QLazy) _ =>
-      match pop_if u (q_lazy s) with Some r => Some (mk06 (q_main s) r (q_idle s) (q_run s) (q_first s) (q_lazyon s)) | None => None end
+      match pop_if u (q_lazy s) with Some r => Some (mk06 (q_main s) (q_limbo s) r (q_idle s) (q_run s) (q_first s) (q_lazyon s) (q_tear s)) | None => None end
   | EDrop u (Some QIdle) _ =>
-      match pop_if u (q_idle s) with Some r => Some (mk06 (q_main s) (q_lazy s) r (q_run s) (q_first s) (q_lazyon s)) | None => None end
+      match pop_if u (q_idle s) with Some r => Some (mk06 (q_main s) (q_limbo s) (q_lazy s) r (q_run s) (q_first s) (q_lazyon s) (q_tear s)) | None => None end
   | _ => Some s
   end.
 
@@ -233,30 +242,37 @@ Definition C06_ok (t : list ev) : bool := C06_plain_ok t && C06_calls_ok t.
     consumption sequence IS the submission sequence), the list is empty whenever [run] returns (by next run),
     nothing starts during [Stakker::drop], and the drain loop of [Stakker::drop] leaves nothing queued: when
     the first lazy/idle/timer closure is dropped (or, failing that, when the drop returns) the list is empty.
-    What is submitted after that point (by Drop handlers of lazy/idle/timer closures) stays queued (limbo). *)
+    What is submitted after that point (by Drop handlers of lazy/idle/timer closures) stays queued (limbo):
+    with the global / thread-local deferrer the next [Stakker::new] drops it, in order; with the inline
+    deferrer it is never touched again. *)
 
 Record s01 := mk01 {
-  m_pend : list N;           (* plain main-queue closures, submitted, neither started nor dropped, in order *)
+  m_pend : list N;           (* plain main-queue closures of the current Stakker, submitted, neither started nor dropped, in order *)
+  m_limbo : list N;          (* ... left queued by previous Stakker instances (dropped by the next Stakker::new) *)
   m_tear : bool;             (* between dropbegin and dropend *)
   m_fields : bool }.         (* the drain loop is over: lazy/idle/timer closures are being dropped *)
 
-Definition i01 : s01 := mk01 [] false false.
+Definition i01 : s01 := mk01 [] [] false false.
 
 Definition step01 (s : s01) (e : ev) : option s01 :=
   match e with
-  | ESub QMain u false => Some (mk01 (m_pend s ++ [u]) (m_tear s) (m_fields s))
+  | ENew _ => Some (mk01 [] (m_limbo s ++ m_pend s) false false)
+  | ESub QMain u false => Some (mk01 (m_pend s ++ [u]) (m_limbo s) (m_tear s) (m_fields s))
   | ERun u _ QMain =>
       if m_tear s then None else
-      match pop_if u (m_pend s) with Some r => Some (mk01 r (m_tear s) (m_fields s)) | None => None end
+      match pop_if u (m_pend s) with Some r => Some (mk01 r (m_limbo s) (m_tear s) (m_fields s)) | None => None end
   | ERun _ _ _ | EMeth _ _ _ | EPrep _ _ _ => if m_tear s then None else Some s
   | EDrop u (Some QMain) false =>
-      match pop_if u (m_pend s) with Some r => Some (mk01 r (m_tear s) (m_fields s)) | None => None end
+      if m_tear s then
+        match pop_if u (m_pend s) with Some r => Some (mk01 r (m_limbo s) (m_tear s) (m_fields s)) | None => None end
+      else
+        match pop_if u (m_limbo s) with Some r => Some (mk01 (m_pend s) r (m_tear s) (m_fields s)) | None => None end
   | EDrop _ (Some _) false =>
       (* a lazy / idle / timer closure dropped by Stakker::drop: the drain loop has finished *)
-      if m_tear s && negb (m_fields s) then guard (nil_b (m_pend s)) (mk01 (m_pend s) true true) else Some s
+      if m_tear s && negb (m_fields s) then guard (nil_b (m_pend s)) (mk01 (m_pend s) (m_limbo s) true true) else Some s
   | ERunRet _ => guard (nil_b (m_pend s)) s
-  | EDropBegin => Some (mk01 (m_pend s) true false)
-  | EDropEnd => guard (m_fields s || nil_b (m_pend s)) (mk01 (m_pend s) false false)
+  | EDropBegin => Some (mk01 (m_pend s) (m_limbo s) true false)
+  | EDropEnd => guard (m_fields s || nil_b (m_pend s)) (mk01 (m_pend s) (m_limbo s) false false)
   | _ => Some s
   end.
 
